@@ -156,6 +156,30 @@ func (g *predGen) siblingPair() string {
 	}
 }
 
+// complementPair: two (or three) atoms over ONE literal whose regions are
+// complementary or overlap only at the literal - `key > L | key <= L`,
+// `key < L | key > L`, `key >= L & key <= L` - bare, under `!`, or with an
+// opaque atom as a further operand: the planner's interval algebra meets its
+// own edge cases (everything, nothing, exactly one key).
+func (g *predGen) complementPair() string {
+	r := g.r
+	l := quote(g.lit())
+	a, b := pick(r, [][2]string{{">", "<="}, {"<", ">="}, {"<", ">"}, {">=", "<="}, {"<=", ">="}, {">", "<"}}), ""
+	op := pick(r, []string{" | ", " or ", " & ", " and "})
+	p := "key " + a[0] + " " + l + op + "key " + a[1] + " " + l
+	if r.Chance(0.2) {
+		p = l + " " + a[0] + " key" + op + "key " + a[1] + " " + l
+	}
+	if r.Chance(0.35) {
+		b = pick(r, []string{" | ", " or ", " & "}) + g.opaqueAtom()
+	}
+	p += b
+	if r.Chance(0.5) {
+		return "!(" + p + ")"
+	}
+	return p
+}
+
 func prefixOf(r *Rng, k string) string {
 	if len(k) <= 1 {
 		return k
@@ -246,6 +270,9 @@ func topPred(g *predGen) string {
 			parts[0] = "(" + g.keyAtom() + " & " + g.opaqueAtom() + ")"
 		}
 		return strings.Join(parts, op)
+	}
+	if g.r.Chance(0.04) {
+		return g.complementPair()
 	}
 	if g.r.Chance(0.06) {
 		p := g.siblingPair()
